@@ -118,7 +118,11 @@ def run(pid, tier, seed, replay=None):
                     pairs.append((g, strict, c))
     if pid in ('C06', 'C08'):
         pairs += nested
-    stats['nested_error_inputs'] = len(nested) if pid in ('C06', 'C08') else 0
+    else:
+        # C07 enumerates repairs: only the short ones
+        nested = [n for n in nested if len(n[2]) <= 7][:40 if quick else 400]
+        pairs += nested
+    stats['nested_error_inputs'] = len(nested)
     stats['pairs'] = len(pairs)
     # ---- oracle: sentence? first bad token ----
     augs = [augmented(g) for g, s, w in pairs]
